@@ -75,9 +75,9 @@ CLAIMS = {
     'C01': dict(technique='Verus contracts on the extracted unsync insert/get/contains_key/invalidate* functions + relational lemmas',
                 text='every lookup answer is specified as a function of the map view (value of the resident binding, absent after invalidate*) and proved for all keys, hashers, weights, capacities and clock readings',
                 note=_UNS + _ENV + ' invalidate_entries_if and iteration are outside reach of Verus (iterator adapters): bounded runtime stand-in only.'),
-    'C03': dict(technique='Verus contracts: free-space branch of handle_insert, frame clauses of the housekeeping functions, weight invariant',
-                text='an insert that fits is proved to add the entry and remove nobody; housekeeping is proved to remove nothing when within capacity and without expiry; counters proved exact so room is never under-estimated',
-                note=_UNS + _ENV + ' Gap: that an entry purged by the expiry scan is really expired relies on the node/entry timestamp coupling (raw pointer), which the ownership-sound model cannot state.'),
+    'C03': dict(technique='Verus contracts: free-space branch of handle_insert, frame and precision clauses of the housekeeping functions (expiry scans purge only expired entries), weight invariant',
+                text='an insert that fits is proved to add the entry and remove nobody; housekeeping is proved to remove nothing when within capacity and without expiry, and with expiry to purge only entries whose deadline has passed at the reading of the call; counters proved exact so room is never under-estimated',
+                note=_UNS + _ENV + ' That the expiry scans purge only entries whose deadline has passed at the reading of the call (and go on while the front entry is expired) is proved on the real text of remove_expired_ao / remove_expired_wo / evict_expired; it rests on two named axioms (axiom_stamp_ao / axiom_stamp_wo: a list node read through peek_front carries the stamp of the entry whose slot points to it - in src/unsync.rs the stamps physically live in the nodes, read and written through raw pointers), listed with the assumptions.'),
     'C04': dict(technique='Verus contracts: weight postconditions of handle_insert / admit / handle_update / evict_lru_entries',
                 text='weighted_size is proved to equal the resident weight, oversize inserts proved rejected, admission proved to free at least the candidate weight, eviction proved to continue until within capacity (batch of 100)',
                 note=_UNS + _ENV + ' The concurrent overshoot bound is a schedule property: not covered.'),
